@@ -285,6 +285,8 @@ impl Precedence for Format<'_, Formula> {
 
     fn mandatory_parentheses(&self) -> bool {
         match self.0 {
+            // a chained comparison is rendered as a conjunction of its links
+            Formula::AtomicFormula(AtomicFormula::Comparison(c)) if c.guards.len() > 1 => true,
             Formula::AtomicFormula(_) | Formula::QuantifiedFormula { .. } => false,
             Formula::UnaryFormula { .. } | Formula::BinaryFormula { .. } => true,
         }
